@@ -29,6 +29,10 @@ fn env_u64(name: &str) -> Option<u64> {
 macro_rules! with_prop {
     ($id:expr, $p:ident => $body:expr) => {
         match $id {
+            "C02" => {
+                let $p = props::c02::C02;
+                $body
+            }
             "C05" => {
                 let $p = props::c05::C05;
                 $body
@@ -112,6 +116,13 @@ fn main() {
         "worker" => {
             let id = args[1].clone();
             let code = with_prop!(id.as_str(), p => framework::worker_entry(&p, &args));
+            std::process::exit(code);
+        }
+        "exec1" => {
+            let id = args[1].clone();
+            let path = PathBuf::from(&args[2]);
+            let record = args.get(3).map(|s| s == "record").unwrap_or(false);
+            let code = with_prop!(id.as_str(), p => framework::exec1_entry(&p, &path, record));
             std::process::exit(code);
         }
         "replay" => {
